@@ -134,6 +134,13 @@ def step(s, op, cc):
     finally:
         log, s.mon.log = s.mon.log, None
     got = bytes(fld.logical_data.bytes)
+    # ... and read the way the decoders read a fetched record: through the read cursor of the LogicalData object
+    ld = fld.logical_data
+    fresh = (ld.remain, len(ld))
+    through_cursor = bytes(ld.chunk(ld.remain)) if ld.remain else b''
+    req = (i, offset, length)
+    cc.cls('same-request-twice-in-a-row', getattr(s, 'last_req', None) == req)
+    s.last_req = req
     lo, hi = offset, (len(payload) if length < 0 else min(len(payload), offset + length))
     segs_covered = 0
     prev = 0
@@ -156,6 +163,11 @@ def step(s, op, cc):
         s.seen_multi = True
     if s.seen_lower and s.seen_multi:
         cc.nt(True)
+    if got == exp and (fresh != (len(exp), len(exp)) or through_cursor != exp):
+        cc.dev('fetch==sequential-payload', 'fetched-record-not-readable-from-its-start',
+               'fetch %r of record %d: the LogicalData handed over has %d of %d bytes left to read; reading it gives %d bytes, expected %d' % (
+                   (offset, length), i, fresh[0], fresh[1], len(through_cursor), len(exp)))
+        return
     if got != exp:
         if kind == 'whole':
             sig = 'whole-fetch-differs'
